@@ -549,6 +549,9 @@ fn run_batches(p: &Params, rep: &mut Report, inputs: Vec<Input>) {
                     rep.eval();
                     rep.count(&format!("{}/{}/{}", inp.kind, inp.mutation.split('/').last().unwrap_or(""), outcome));
                     rep.distinct(&format!("{}/{}/{}/{}", inp.kind, inp.mutation, outcome, class.chars().take(24).collect::<String>()));
+                    if rep.samples.len() < 3 && inp.mutation != "valid" && inp.kind.ends_with("store") {
+                        rep.sample(json!({"loader": inp.kind, "mutation": inp.mutation, "outcome": outcome, "class": class, "milliseconds": ms, "input_bytes": inp.files.values().map(|f| f.len()).sum::<usize>()}));
+                    }
                     let size: usize = inp.files.values().map(|f| f.len()).sum::<usize>() + inp.main.len();
                     match outcome {
                         "panic" => rep.violation(format!("C19/{}/panic/{}", inp.kind, class), json!({"input": inp.to_json(), "panic": class})),
